@@ -433,6 +433,7 @@ func Discharge(results []*FnResult, opts DischargeOpts) (stats map[string]int, s
 				solverTime += r.Seconds
 				mu.Unlock()
 				if r.Status == "sat" || r.Status == "unsat" {
+					fmt.Fprintf(os.Stderr, "govc: rescue pass decided %s (%s, %.1fs)\n", j.o.Name, r.Status, r.Seconds)
 					resCh[ji] = InstResult{Status: r.Status, Solver: r.Solver + " (rescue pass)", Sec: resCh[ji].Sec + r.Seconds, Output: r.Output, Path: resCh[ji].Path}
 				}
 			}(ji)
